@@ -6,6 +6,6 @@ CONSTANTS
   BuiltinClashCrashes = FALSE
   LateBuiltinShadowed = FALSE
   AddRawKey = FALSE
-  AddMerged = FALSE
+  AddMerged = TRUE
 INVARIANT NoDuplicateSurvives
 INVARIANT Terminates
